@@ -59,6 +59,8 @@ pub enum Mutn {
     Random(#[serde(with = "hexbytes")] Vec<u8>),
     /// the frame, and then arbitrary bytes
     ThenRandom(#[serde(with = "hexbytes")] Vec<u8>),
+    /// instead of the frame: `kib` KiB of the repeated pattern (e.g. 0xFF: a length prefix that never ends)
+    Flood { #[serde(with = "hexbytes")] pattern: Vec<u8>, kib: u16 },
 }
 
 #[derive(Clone, Debug, Serialize, Deserialize)]
@@ -300,6 +302,11 @@ fn build(pkt: &Pkt, m: &Mutn, max: i32, body_ignored: bool) -> Built {
             Built { first: normal(&encode_fields(&fs)), rest: vec![], refuse_on_prefix: false, must_err: !valid, reached: true }
         }
         Mutn::Random(bytes) => Built { first: bytes.clone(), rest: vec![], refuse_on_prefix: false, must_err: false, reached: true },
+        Mutn::Flood { pattern, kib } => {
+            let n = usize::from(*kib) * 1024;
+            let pat = if pattern.is_empty() { vec![0xffu8] } else { pattern.clone() };
+            Built { first: pat.iter().cycle().take(n).copied().collect(), rest: vec![], refuse_on_prefix: false, must_err: false, reached: true }
+        }
         Mutn::ThenRandom(bytes) => Built { first: normal(&plain_body), rest: bytes.clone(), refuse_on_prefix: false, must_err: false, reached: true },
     }
 }
@@ -441,6 +448,7 @@ fn class_name(m: &Mutn) -> String {
         Mutn::SecretSize(_) => "secret_size".into(),
         Mutn::Random(_) => "random_bytes".into(),
         Mutn::ThenRandom(_) => "frame_then_random".into(),
+        Mutn::Flood { .. } => "flood".into(),
     }
 }
 
@@ -475,6 +483,7 @@ impl Check for C04 {
             1 => proptest::sample::select(vec![0u8, 1, 8, 15, 17, 32, 100]).prop_map(Mutn::SecretSize),
             3 => proptest::collection::vec(any::<u8>(), 0..200).prop_map(Mutn::Random),
             1 => proptest::collection::vec(any::<u8>(), 1..60).prop_map(Mutn::ThenRandom),
+            2 => (prop_oneof![3 => proptest::sample::select(vec![vec![0xffu8], vec![0x80u8], vec![0x81u8], vec![0xff, 0xff, 0xff, 0xff, 0x8f], vec![0x80, 0x80, 0x80, 0x80, 0x80, 0x01]]), 1 => proptest::collection::vec(0x80u8..=0xff, 1..8)], proptest::sample::select(vec![300u16, 600, 1500])).prop_map(|(pattern, kib)| Mutn::Flood { pattern, kib }),
         ];
         (
             proptest::sample::select(vec![64i32, 64, 1000, 10_000, 10_000, 1 << 17, 1 << 20]),
@@ -488,6 +497,8 @@ impl Check for C04 {
             .prop_map(|(max_len, intent, secret, at, mutation, name, select_seed)| {
                 // with a 64-byte frame limit the RSA ciphertexts of the Encryption Response do not fit: keep login below it reachable
                 let max_len = if max_len < 400 && intent != 1 { 400 } else { max_len };
+                // a flood is judged against the allocation bound, which must stay below the flood's size
+                let max_len = if matches!(mutation, Mutn::Flood { .. }) { max_len.min(1000) } else { max_len };
                 Case { cfg: ConnCfg { secret, max_len, ..Default::default() }, intent, at, mutation, name, select_seed }
             })
             .boxed()
